@@ -125,3 +125,13 @@ ENTRIES = [
       "        content = self._flush_decompressor()\n\n        if file:\n            file.write(content)\n\n            if file_is_async:\n                yield from file.drain()\n\n        trailer_data = yield from reader.read_trailer()\n\n        self._data_event_dispatcher.notify_read(trailer_data)\n",
       "        trailer_data = yield from reader.read_trailer()\n\n        self._data_event_dispatcher.notify_read(trailer_data)\n\n        content = self._flush_decompressor()\n\n        if file:\n            file.write(content)\n\n            if file_is_async:\n                yield from file.drain()\n"),
 ]
+
+_SETUP_OLD = "        if encoding == 'gzip':\n            self._decompressor = wpull.decompression.GzipDecompressor()\n        elif encoding == 'deflate':\n            self._decompressor = wpull.decompression.DeflateDecompressor()\n        else:\n            self._decompressor = None\n"
+ENTRIES += [
+    {'id': 'C19/benign-module-table-with-reset', 'prop': 'C19', 'kind': 'benign', 'edits': [
+        (S, "class Stream(object):\n", "CONTENT_DECOMPRESSORS = {\n    'gzip': wpull.decompression.GzipDecompressor,\n    'deflate': wpull.decompression.DeflateDecompressor,\n}\n\n\nclass Stream(object):\n"),
+        (S, _SETUP_OLD, "        decompressor_class = CONTENT_DECOMPRESSORS.get(encoding)\n\n        if decompressor_class:\n            self._decompressor = decompressor_class()\n        else:\n            self._decompressor = None\n")]},
+    {'id': 'C19/module-table-no-reset', 'prop': 'C19', 'kind': 'break', 'expect': 'C19-D2', 'edits': [
+        (S, "class Stream(object):\n", "CONTENT_DECOMPRESSORS = {\n    'gzip': wpull.decompression.GzipDecompressor,\n    'deflate': wpull.decompression.DeflateDecompressor,\n}\n\n\nclass Stream(object):\n"),
+        (S, _SETUP_OLD, "        decompressor_class = CONTENT_DECOMPRESSORS.get(encoding)\n\n        if decompressor_class:\n            self._decompressor = decompressor_class()\n")]},
+]
